@@ -6,7 +6,7 @@ import z3
 
 from pyvc.replay import get_model, conc
 from pyvc.scenario import Sandbox, us_to_text
-from . import dates, purge
+from . import dates, purge, options
 
 PROPERTY = 'C10'
 LEVEL_NOTE = ('all obligations generated from the current /repo source of '
@@ -17,6 +17,10 @@ LEVEL_NOTE = ('all obligations generated from the current /repo source of '
               'scanner event sequence; loops are cut at invariants')
 
 EXPECTED = [
+    'empty-options/dry-run-only-with-its-flag',
+    'empty-options/interactive-is-the-default-overridden-by-the-last-of-i-and-f',
+    'empty-options/days-is-the-integer-operand',
+    'empty-options/trash-dirs-are-the-option-values-in-order',
     'trashcli.empty.older_than.older_than/post/strictly-earlier',
     'trashcli.parse_trashinfo.parse_deletion_date.parse_deletion_date/post/',
     'trashcli.parse_trashinfo.parse_trashinfo.ParseTrashInfo.parse_trashinfo/loop0/inv-pres/',
@@ -37,6 +41,7 @@ def build(S, tier, seed):
     for o in S.obligations:
         if o.name.startswith('canary/'):
             o.kind = 'canary' if '/post/canary' in o.name else 'aux'
+    options.empty_options_vc(S)
 
 
 # ---------------------------------------------------------------------------
